@@ -7,6 +7,7 @@
    streams is validated by the oracle on both the streams and the trees. *)
 From MW Require Import PyBase Nodes Builder Flatten BuilderProofs Canon.
 From MW Require Import HeadingFrag HeadingFragProofs.
+From MW Require Import EntityFrag EntityFragProofs.
 
 Theorem C14_canonical_tokens_give_canonical_tree_partial :
   forall c, canon_toks (fl_code c) = true -> canon_code c = true.
@@ -34,3 +35,8 @@ Theorem C14_fragment_canonical : forall md s, canon_code (frag_nodes md s) = tru
 Proof. exact frag_canonical. Qed.
 
 Print Assumptions C14_fragment_canonical.
+
+Theorem C14_entity_fragment_canonical : forall markers names msize s, canon_code (efrag_nodes markers names msize s) = true.
+Proof. exact efrag_canonical. Qed.
+
+Print Assumptions C14_entity_fragment_canonical.
